@@ -6,6 +6,8 @@ An *event* in a case description is a tuple ("ts", tick, num, den) or ("ks", tic
 """
 from __future__ import annotations
 
+import numbers
+
 from mc.core import clone
 
 from scoda.elements.message import Message
@@ -15,6 +17,45 @@ from scoda.sequences.relative_sequence import RelativeSequence
 from scoda.sequences.sequence import Sequence
 
 NOTE_KINDS = (MT.NOTE_ON, MT.NOTE_OFF)
+
+
+# ---- carrier types ----------------------------------------------------------------------------
+# The same tick values handed over in another integer type a caller may legitimately use (numpy integers as they come
+# out of np.arange / np.diff / piano-roll arrays).  `set_tick("int64")` switches the type of every tick the builders
+# below put into a message; observation compares numerically, so expectations stay plain ints.
+_TICK = [int]
+
+
+def set_tick(name=None):
+    if not name or name == "int":
+        _TICK[0] = int
+    else:
+        import numpy as np
+        _TICK[0] = getattr(np, name)
+
+
+def tk(t):
+    return t if t is None or _TICK[0] is int else _TICK[0](t)
+
+
+def carriers(xs):
+    """the same finite list handed over as list, tuple, generator, iterator, map object and numpy array"""
+    import numpy as np
+    xs = list(xs)
+    return {"list": lambda: list(xs), "tuple": lambda: tuple(xs), "generator": lambda: (x for x in xs),
+            "iterator": lambda: iter(xs), "map": lambda: map(lambda x: x, xs), "reversed": lambda: reversed(xs[::-1]),
+            "numpy": lambda: np.array(xs, dtype=np.int64)}
+
+
+CARRIERS = ("tuple", "generator", "iterator", "map", "reversed", "numpy")
+
+
+def with_carriers(gen, every, key, names=CARRIERS):
+    """every `every`-th case of a case generator repeated with case[key] = one of the carrier names (cycling)"""
+    for i, c in enumerate(gen):
+        yield c
+        if i % every == 0 and isinstance(c, dict) and key not in c:
+            yield dict(c, **{key: names[(i // every) % len(names)]})
 
 
 # ---- message constructors -------------------------------------------------------------------
@@ -69,10 +110,10 @@ def seq_abs(notes=(), events=(), dur=None, ch_events=0, order="sane"):
         items = [items[(i * k) % m] for i in range(m)]
     for it in items:
         m = it[4]
-        m.time = it[0]
+        m.time = tk(it[0])
         s.add_absolute_message(m)
     if dur is not None:
-        s.add_absolute_message(cap(dur, ch_events))
+        s.add_absolute_message(cap(tk(dur), ch_events))
     return s
 
 
@@ -100,18 +141,23 @@ def seq_rel(notes=(), events=(), dur=None):
     msgs, t = [], 0
     for it in items:
         if it[0] > t:
-            msgs.append(wait(it[0] - t, it[3]))
+            msgs.append(wait(tk(it[0] - t), it[3]))
             t = it[0]
         msgs.append(it[4])
     if dur is not None and dur > t:
-        msgs.append(wait(dur - t))
+        msgs.append(wait(tk(dur - t)))
     return Sequence(relative_sequence=RelativeSequence(msgs))
 
 
 # ---- observation ------------------------------------------------------------------------------
 
+def plain(t):
+    """numpy integers are observed as plain ints (their type is recorded separately in the views' type sets)"""
+    return int(t) if type(t) is not int and isinstance(t, numbers.Integral) and not isinstance(t, bool) else t
+
+
 def _ev(t, m):
-    return (t, m.message_type.value, m.channel, m.note, m.velocity, m.numerator, m.denominator,
+    return (plain(t), m.message_type.value, m.channel, m.note, m.velocity, m.numerator, m.denominator,
             m.key.value if m.key is not None else None, m.program)
 
 
@@ -126,7 +172,7 @@ def view_abs(s):
         if m.message_type is not MT.INTERNAL and m.message_type is not MT.WAIT:
             ev.append(_ev(m.time, m))
     ev.sort(key=lambda e: tuple((x is None, x) for x in e))
-    return ev, dur, types
+    return ev, plain(dur), types
 
 
 def view_rel(s):
@@ -140,7 +186,7 @@ def view_rel(s):
         elif m.message_type is not MT.INTERNAL:
             ev.append(_ev(t, m))
     ev.sort(key=lambda e: tuple((x is None, x) for x in e))
-    return ev, t, types
+    return ev, plain(t), types
 
 
 def rel_stream(s):
@@ -152,8 +198,8 @@ def rel_stream(s):
         if m.message_type is MT.WAIT:
             t += m.time
         else:
-            out.append((t, m))
-    return out, t
+            out.append((plain(t), m))
+    return out, plain(t)
 
 
 def pair_notes(events, ordered=False):
